@@ -28,7 +28,10 @@ class DefaultNamingStrategy(NamingStrategy):
     """
 
     def apply(self, remote_path: str, local_dir: str, local_filename: str) -> tuple[str, str]:
-        return local_dir, split_remote_path(remote_path)[-1]
+        remote_path_parts = split_remote_path(remote_path)
+        if not remote_path_parts or remote_path_parts[-1] in ('.', '..'):
+            raise ValueError(f"remote path does not contain a filename : {remote_path!r}")
+        return local_dir, remote_path_parts[-1]
 
 
 class KeepDirectoryStrategy(NamingStrategy):
@@ -40,7 +43,7 @@ class KeepDirectoryStrategy(NamingStrategy):
         remote_path_parts = split_remote_path(remote_path)
 
         # Only a filename (not sure if this can occur)
-        if len(remote_path_parts) == 1:
+        if len(remote_path_parts) <= 1:
             return local_dir, local_filename
 
         # Ignore directories starting with '@@' or Windows drives (C:, D:)
@@ -49,6 +52,10 @@ class KeepDirectoryStrategy(NamingStrategy):
             return local_dir, local_filename
 
         elif re.match(r'[a-zA-Z]{1}:', contained_dir) is not None:
+            return local_dir, local_filename
+
+        # Never follow relative directory references supplied by the peer
+        elif contained_dir in ('.', '..'):
             return local_dir, local_filename
 
         return os.path.join(local_dir, contained_dir), local_filename
@@ -102,4 +109,9 @@ def chain_strategies(strategies: list[NamingStrategy], remote_path: str, local_d
     for strategy in strategies:
         if strategy.should_be_applied(path, filename):
             path, filename = strategy.apply(remote_path, path, filename)
+
+    if filename in ('', '.', '..'):
+        raise ValueError(
+            f"naming strategies did not result in a valid filename : {filename!r} (remote_path={remote_path!r})")
+
     return path, filename
